@@ -20,7 +20,9 @@ CONSTANTS Cap,          \* slots (power of two in the code; any value here)
           PushTailAcq,  \* producer loads the consumer index with acquire
           PushHeadRel,  \* producer publishes its index with release
           PopHeadAcq,   \* consumer loads the producer index with acquire
-          PopTailRel    \* consumer publishes its index with release
+          PopTailRel,   \* consumer publishes its index with release
+          PushPublishLast, \* producer stores its index AFTER it has written the slots (textual order in the source)
+          PopPublishLast   \* consumer stores its index AFTER it has moved the items out
 
 T == {"P", "C"}
 Max(a, b) == IF a > b THEN a ELSE b
@@ -76,7 +78,8 @@ PDecide == /\ pc["P"] = "decide"
            /\ LET avail == Cap - (reg["P"].own - reg["P"].other)
                   n == Min(Batch, avail) IN
               /\ reg' = [reg EXCEPT !["P"].n = n, !["P"].i = 0]
-              /\ pc' = [pc EXCEPT !["P"] = IF n = 0 THEN (IF Batch = 1 THEN "idle" ELSE "publish") ELSE "write"]
+              /\ pc' = [pc EXCEPT !["P"] = IF n = 0 THEN (IF Batch = 1 THEN "idle" ELSE "publish")
+                                            ELSE IF PushPublishLast THEN "write" ELSE "publish"]
            /\ UNCHANGED <<hist, view, vc, slot, attempts, pushed, popped, race>>
 PWrite == /\ pc["P"] = "write"
           /\ LET s == (reg["P"].own + reg["P"].i) % Cap
@@ -86,11 +89,11 @@ PWrite == /\ pc["P"] = "write"
              /\ vc' = nvc
              /\ pushed' = pushed + 1
              /\ reg' = [reg EXCEPT !["P"].i = @ + 1]
-             /\ pc' = [pc EXCEPT !["P"] = IF reg["P"].i + 1 = reg["P"].n THEN "publish" ELSE "write"]
+             /\ pc' = [pc EXCEPT !["P"] = IF reg["P"].i + 1 = reg["P"].n THEN (IF PushPublishLast THEN "publish" ELSE "idle") ELSE "write"]
           /\ UNCHANGED <<hist, view, attempts, popped>>
 PPublish == /\ pc["P"] = "publish"
             /\ Store("P", "head", reg["P"].own + reg["P"].n, PushHeadRel)
-            /\ pc' = [pc EXCEPT !["P"] = "idle"]
+            /\ pc' = [pc EXCEPT !["P"] = IF PushPublishLast \/ reg["P"].n = 0 THEN "idle" ELSE "write"]
             /\ UNCHANGED <<reg, slot, attempts, pushed, popped, race>>
 
 \* ---- consumer: tryPop / tryPopBatch --------------------------------------------------------------------
@@ -104,7 +107,8 @@ CDecide == /\ pc["C"] = "decide"
            /\ LET avail == IF reg["C"].other > reg["C"].own THEN reg["C"].other - reg["C"].own ELSE 0
                   n == Min(Batch, avail) IN
               /\ reg' = [reg EXCEPT !["C"].n = n, !["C"].i = 0]
-              /\ pc' = [pc EXCEPT !["C"] = IF n = 0 THEN (IF Batch = 1 THEN "idle" ELSE "publish") ELSE "read"]
+              /\ pc' = [pc EXCEPT !["C"] = IF n = 0 THEN (IF Batch = 1 THEN "idle" ELSE "publish")
+                                            ELSE IF PopPublishLast THEN "read" ELSE "publish"]
            /\ UNCHANGED <<hist, view, vc, slot, attempts, pushed, popped, race>>
 CRead == /\ pc["C"] = "read"
          /\ LET s == (reg["C"].own + reg["C"].i) % Cap
@@ -115,11 +119,11 @@ CRead == /\ pc["C"] = "read"
             /\ vc' = nvc
             /\ popped' = Append(popped, slot[s].val)
             /\ reg' = [reg EXCEPT !["C"].i = @ + 1]
-            /\ pc' = [pc EXCEPT !["C"] = IF reg["C"].i + 1 = reg["C"].n THEN "publish" ELSE "read"]
+            /\ pc' = [pc EXCEPT !["C"] = IF reg["C"].i + 1 = reg["C"].n THEN (IF PopPublishLast THEN "publish" ELSE "idle") ELSE "read"]
          /\ UNCHANGED <<hist, view, attempts, pushed>>
 CPublish == /\ pc["C"] = "publish"
             /\ Store("C", "tail", reg["C"].own + reg["C"].n, PopTailRel)
-            /\ pc' = [pc EXCEPT !["C"] = "idle"]
+            /\ pc' = [pc EXCEPT !["C"] = IF PopPublishLast \/ reg["C"].n = 0 THEN "idle" ELSE "read"]
             /\ UNCHANGED <<reg, slot, attempts, pushed, popped, race>>
 
 Next == PBegin \/ PLoad \/ PDecide \/ PWrite \/ PPublish \/ CBegin \/ CLoad \/ CDecide \/ CRead \/ CPublish
